@@ -7,6 +7,8 @@
   * maintenance_task_schedules: the same handler with its periodic_maintenance() coroutine running as a stock asyncio.Task on a
                          virtual event loop; the explorer owns the ready queue, the timer heap and the clock: all orders of datagrams,
                          loop callbacks and timer expiries to a depth (schedules, not only datagram sequences)
+  * closed_two_handlers_with_maintenance_tasks: two handlers and their two maintenance tasks on one virtual loop, back to back
+                         (checks/c17_sched.py): all orders of deliveries, loop callbacks, timer expiries, one injection
   * malformed_depth1   : every prefix truncation and every single-bit corruption of every alphabet datagram delivered
                          in each of 4 reachable states: never raises, never answers garbage with a payload
 """
@@ -471,8 +473,7 @@ class Maint(Single):
 
     def key(self):
         now = self.loop.time()
-        return (super().key(), now, self.loop.ready_count(), tuple(sorted(round(h._when - now, 6) for h in self.loop._scheduled if not h._cancelled)),
-                self.task.done(), len(self.loop.errors))
+        return (super().key(), now, self.loop.describe({self.task: "maintenance"}), self.task.done(), len(self.loop.errors))
 
 
 # ------------------------------------------------------------------------------------------------
@@ -719,6 +720,18 @@ def run(only=None):
         s.extra["schedules"] = {"scheduling_points": "every loop callback boundary", "deviation_bound": "none (all orders to the depth)", "depth": res.depth_completed}
         s.done()
         rep.bounds["maintenance_task_schedules"] = {"depth_completed": res.depth_completed, "states": res.states}
+    if not only or "closed_two_handlers_with_maintenance_tasks" in only:
+        from checks.c17_sched import ClosedMaint
+        d = 14 if thorough else 10
+        s = rep.sub("closed_two_handlers_with_maintenance_tasks",
+                    rule=f"two real handlers AND their two periodic_maintenance() tasks on one virtual event loop, wired back to back (the maintenance CONNECT goes to the peer), "
+                         f"<= {ClosedMaint.BUDGET} injected datagram from {len(ClosedMaint.INJECT)} classes: all orders of deliveries, loop callbacks, timer expiries and the injection "
+                         f"to depth {d} from 3 initial states; no exception, no answered acknowledgement, each flag / registry equals what that handler has seen, the exchange "
+                         f"dies out within {8} deliveries after the last spontaneous send")
+        res = explore.bfs(ClosedMaint, max_depth=d, log=rep.log)
+        explore.feed(s, res, WHAT, name="closed_maint", rep=rep)
+        s.done()
+        rep.bounds["closed_two_handlers_with_maintenance_tasks"] = {"depth_completed": res.depth_completed, "states": res.states}
     if not only or "closed_two_handlers" in only:
         cls = Closed3 if thorough else Closed
         s = rep.sub("closed_two_handlers", rule=f"two real handlers back to back, <= {cls.BUDGET} injected datagrams from {len(INJECT)} classes, all delivery orders, "
@@ -793,7 +806,10 @@ def replay(doc):
                 print("  raised", repr(e))
                 bad += 1
             continue
-        cls = {"single_handler_bfs": Single, "closed_two_handlers": Closed3, "maintenance_task_schedules": Maint}[doc["check"]]
+        if doc["check"] == "closed_two_handlers_with_maintenance_tasks":
+            from checks.c17_sched import ClosedMaint
+        cls = {"single_handler_bfs": Single, "closed_two_handlers": Closed3, "maintenance_task_schedules": Maint,
+               "closed_two_handlers_with_maintenance_tasks": globals().get("ClosedMaint") or locals().get("ClosedMaint")}[doc["check"]]
         init = c["init"]
         s = cls(tuple(init) if isinstance(init, list) else init)
         for ev in c["path"]:
